@@ -218,6 +218,52 @@ class create_type_with_length:
         return {RuntimeError: name != "string" and name != "encoded_string"}
 
 
+@class_contract("protocol_code_generator.type.length.Length")
+class Length:
+    fields = dict(_string="Optional[pystr]", _integer="Optional[int]")
+
+
+@contract("protocol_code_generator.type.length.Length.from_string")
+class length_from_string:
+    trusted = True      # classmethod `cls(length_string)`: the constructor stores the string
+    sorts = dict(cls="opaque", length_string="Optional[pystr]", result="protocol_code_generator.type.length.Length")
+
+    def ensures(length_string, result):
+        return [(result._string is None) == (length_string is None)]
+
+
+@contract("protocol_code_generator.type.length.Length.unspecified")
+class length_unspecified:
+    trusted = True      # classmethod `cls(None)`
+    sorts = dict(cls="opaque", result="protocol_code_generator.type.length.Length")
+
+    def ensures(result):
+        return [result._string is None]
+
+
+@contract(FCG + "._get_type_length")
+class get_type_length:
+    properties = ["C17"]
+    sorts = dict(result="protocol_code_generator.type.length.Length")
+
+    def ensures(self, result):
+        # rule "lengths on non-string types", first half: every length attribute of a field (literal OR the name of
+        # a length field) reaches type resolution as a specified length; only arrays keep theirs for the loop
+        return [(result._string is not None) == (not self._array_field and self._length_string is not None)]
+
+
+@contract("protocol_code_generator.type.type_factory.TypeFactory.get_type")
+class tf_get_type:
+    properties = ["C17"]
+    sorts = dict(self="opaque", name="pystr", length="Optional[protocol_code_generator.type.length.Length]", result="opaque")
+    opaque_calls = "mayraise"
+
+    def must_raise(name, length):
+        # ... second half: a specified length on anything but the two string types is refused
+        return {RuntimeError: length is not None and length._string is not None
+                and name != "string" and name != "encoded_string"}
+
+
 # ---- one-directional leaf guards (must_raise): a normal return implies the rule's condition did not
 # hold on entry; string building / builders / XML accessors are opaque calls that may return anything
 # and may raise
